@@ -44,9 +44,9 @@ def validate(ck, agg, nn):
     n = 0
     for maxlen, frag in ((144, True), (24, False), (144, False), (50, True)):
         n += 1
-        st, node = nn.fresh(fields={"max_message_length": maxlen, "_frag_enabled": frag})
+        st, node = nn.fresh(fields={"max_message_length": maxlen, net.FN("_frag_enabled"): frag})
         net.set_rng(st, "length", (0, None))
-        outs = nn.run(f, node, [Sym("length", "int", rng=(0, None))], st)
+        outs = nn.run(f, node, [Sym("length", "int", rng=(0, None))], st, decide=True)
         trues = []
         for out in outs:
             rng = out.state.extra["symrng"].get("length")
@@ -80,7 +80,7 @@ def validate(ck, agg, nn):
             if clsname.startswith("RF24Mesh") and nm == "send":
                 continue  # delegates to write() after the lookup; analysed through write()
             nsend += 1
-            st, node = n2.fresh(fields={"_frag_enabled": False, "max_message_length": 144})
+            st, node = n2.fresh(fields={net.FN("_frag_enabled"): False, "max_message_length": 144})
             names = [x.arg for x in fi.node.args.args][1:]
             anns = {x.arg: (ast.unparse(x.annotation) if x.annotation is not None else "") for x in fi.node.args.args}
             args, msgparam = [], None
@@ -120,6 +120,21 @@ def validate(ck, agg, nn):
                     tags = [p[0] for p in msg.parts]
                     okp = len(tags) == 1 and (tags[0][0] in ("param", "sym") or (tags[0][0] == "slice" and tags[0][2] == 0))
                     agg.add("R05.2", fi, "the transmitted bytes are the caller's message or its prefix", okp, "%s transmits %r" % (label, tags))
+                # R06.9: the message travels under a frame id of its own: the header in frame_buf is one constructed for this message
+                # (its constructor draws the next id) or the one the caller handed in - never whatever header the shared buffer last held
+                # (a received frame's, or the previous message's): the receiver tells the fragments of two messages apart by (origin, id)
+                href = wr[0].data[3].get("header_ref")
+                fresh = {e.data[1].ident for e in out.trace if e.kind == "new" and e.seq < wr[0].seq and e.data[0].endswith(":RF24NetworkHeader")}
+                given = set()
+                for a_ in args:
+                    if isinstance(a_, Ref) and a_.kind == "obj":
+                        given.add(a_.ident)
+                        hv = st.heap[a_.ident].fields.get("header") if a_.ident in st.heap else None
+                        if isinstance(hv, Ref):
+                            given.add(hv.ident)
+                agg.add("R06.9", fi, "each message is sent under a frame id of its own (a header constructed for it, or the caller's)", isinstance(href, Ref) and href.ident in (fresh | given),
+                        "%s transmits with the header object the frame buffer happened to hold: the frame id (and `reserved`) of the previous or of a received frame is re-used, "
+                        "so a receiver cannot tell the fragments of two consecutive messages apart" % label, wr[0].node)
     nn.model.opaque.pop(f_write.qualname, None)
     return n + nsend
 
@@ -146,7 +161,7 @@ def receive(ck, agg, nn):
         for am in (True, False):
             n += 1
             st, node = nn.fresh(fields={"allow_multicast": am, "ret_sys_msg": False})
-            addr = st.heap[node.ident].fields["_addr"]
+            addr = st.heap[node.ident].fields[net.FN("_addr")]
             outs = nn.run(f, node, [], st, limits=Limits(max_paths=40000, loop_unroll=2, depth=14, concrete_loop=10))
             for out in outs:
                 if out.kind != "return":
@@ -228,6 +243,14 @@ def run(ck):
     # "write()/send() returns True for a delivered message": which types make the origin wait for a NETWORK_ACK must be exactly the types
     # for which the last hop sends one (one predicate, R13.1: 65..191, the fragment types included)
     c13.ack_type_region(ck, agg)
+    # "identical bytes / reassembled transparently": the sender's fragment slices partition the message (R06.7 = R11.6)
+    from . import c11
+    c11.fragment_loop(ck, agg, rule="R06.7")
+    # "and to no other node's queue": after every transmission a node's pipe 0 is back on its *own* address (the driver remembers it in a
+    # buffer of its own), otherwise it overhears - and processes a second time - frames sent to the node it last transmitted to (C08's rules)
+    from . import c08
+    from .radio import Radio
+    c08.run_for(ck, Radio(ck), agg)
     # delivery "to the destination and to no other node" rests on what _begin() derives from an address (R04.1: masks, parent, parent
     # pipe - also when _begin() runs a second time on a node that already has an address: its fields start from arbitrary values)
     from . import c04
